@@ -25,6 +25,7 @@ def run(chk):
     batcher.one_critical_section(chk, P, "C08")
     batcher.termination(chk, P, "C08")
     batcher.watchers_after_last_attempt(chk, P, "C08")
+    batcher.watcher_lists(chk, P, "C08")
     batcher.tokio_blocking(chk, P, "C08")
     if not getattr(chk, "_overlay", None):
         batcher.tokio_worker_runtime(chk, P, "C08")
